@@ -121,6 +121,8 @@ def generate(seed, tier):
                     # in-process readers: one loader object kept by the host for the whole
                     # history, or a new one per load
                     "loader": rng.choice(["host", "host", "fresh"]),
+                    # additionally run exported functions of the stored module through nslr.py
+                    "nslr": rng.random() < 0.3,
                 }
             )
     if rng.random() < 0.08:
@@ -429,6 +431,10 @@ def _execute(sc, root, want_texts):
                 except Exception as e:
                     results.append({"status": "exc", "exc": type(e).__name__, "msg": str(e)[:200]})
         shapes.add(f"r:{st['how']}:{_io_class(st['io'])}:{st['cwd']}")
+        if st.get("nslr") and not probe:
+            r = _nslr_reads(sc, st, si, plan_names, model, store, cwd, tree, log, bump)
+            if r is not None:
+                return done(*r[:3], **r[3])
         k = 0
         for n, style, rel in plan_names:
             loaded = results[k]
@@ -467,6 +473,60 @@ def _execute(sc, root, want_texts):
                 return done("violation", diff[0], f"{ctx}: {diff[1]}", finding_key=fk)
     bump("steps", nstep)
     return done("ok")
+
+
+def _nslr_reads(sc, st, si, plan_names, model, store, cwd, tree, log, bump):
+    """The shipped reader: `nslr.py run <file> <function> <args>` on the stored module and, as
+    the reference, the same command on a module the harness compiled afresh and pickled itself."""
+    import random
+
+    n = 0
+    for key, style, rel in plan_names:
+        ent = model[key]
+        if ent.get("unknown") or n >= 2:
+            continue
+        os.chdir(store)
+        m, status = _compile_inproc(sc["sources"][ent["src"]], ent["opt"])
+        if m is None:
+            continue
+        fresh = os.path.join(store, "FreshReference__.nslir")
+        with open(fresh, "wb") as f:
+            pickle.dump(m, f)
+        fresh_rel = fresh if cwd == store else os.path.join("..", "store", "FreshReference__.nslir")
+        try:
+            for fname in sorted(m.Functions):
+                f = m.Functions[fname]
+                if fname.startswith("@") or not all(t.IsScalar() for t in f.Type.Arguments.values()):
+                    continue
+                rng = random.Random(f"{sc.get('obs_seed', 0)}/{fname}/nslr")
+                args = [str(rng.randint(0, 9)) if "int" in str(t) else str(rng.randint(0, 12) * 0.25)
+                        for t in f.Type.Arguments.values()]
+                tool = os.path.join(tree, "nslr.py")
+                outs = []
+                for target in (rel, fresh_rel):
+                    code, out, err = _run_child([tool, "run", target, fname] + args, cwd, st["hs"], tree)
+                    lines = [l for l in (out or "").splitlines() if l.strip()]
+                    if code == 0:
+                        outs.append(["ok", lines[-1] if lines else ""])
+                    else:
+                        last = (err or "").strip().splitlines()[-1] if (err or "").strip() else ""
+                        outs.append(["fail", last.split(":")[0].split(".")[-1]])
+                bump("nslr_reads")
+                log.add("nslr", name=key, fn=fname, got=outs[0])
+                n += 1
+                if outs[0] != outs[1]:
+                    return (
+                        "violation",
+                        "nslr-differs",
+                        f"step {si}: nslr.py run {rel} {fname} {args} (hash seed {st['hs']}, cwd {st['cwd']}) gives {outs[0]}, "
+                        f"the same command on a freshly compiled copy of source #{ent['src']} -O{ent['opt']} gives {outs[1]}",
+                        {"finding_key": "nslr-" + outs[0][0]},
+                    )
+                break
+        finally:
+            if os.path.exists(fresh):
+                os.unlink(fresh)
+    return None
 
 
 # ------------------------------------------------------------------ shrinking
